@@ -101,7 +101,11 @@ def r42(facts, res):
             st = nf[2][1]
             pos_ok = (is_const(st) and st[1] == 0) or (has_call(st, 'end') and has_call(st, 'span'))
             cond_ok = all(v == 0 for c, v in lt) and lt
-            empty = [v for c, v in p.conds if c[0] == 'bin' and c[1] == 'Eq' and (c[2] == ('const', 0) or c[3] == ('const', 0))]
+            # "there are no lexemes": len == 0 found true, len != 0 found false, or 0 < len found false
+            empty = [v if c[1] == 'Eq' else 1 - v for c, v in p.conds if c[0] == 'bin' and c[1] in ('Eq', 'Ne') and (c[2] == ('const', 0) or c[3] == ('const', 0))
+                     and isinstance(v, int)]
+            empty += [1 - v for c, v in p.conds if c[0] == 'bin' and c[1] == 'Lt' and c[2] == ('const', 0) and has_call(c[3], 'len') and isinstance(v, int)]
+            empty += [v for c, v in p.conds if c[0] == 'bin' and c[1] == 'Le' and c[3] == ('const', 0) and has_call(c[2], 'len') and isinstance(v, int)]
             if is_const(st) and st[1] == 0:
                 pos_ok = pos_ok and empty == [1]
             else:
